@@ -9,6 +9,7 @@ CONSTANTS
   MaxBatch = 2
   MaxEpoch = 1
   MaxHit = 1
+  MaxRecCrash = 0
   CapSet = {2}
   RetSet = {0, 3}
   CompactSet = {TRUE}
